@@ -1650,6 +1650,11 @@ def c14(ctx):
             c = byid[o["id"]]
             ctx.violation(f"Apply is not repeatable (sequential same={o['repeat_same']}, concurrent same={o['conc_same']})",
                           {"input": {"patches": c["patches"], "src": c["src"]}})
+        if o.get("held_same") is False:
+            c = byid[o["id"]]
+            ctx.violation("the bytes an Apply call returned changed while the same parsed patch was applied to other sources: each call's result "
+                          "is its own", {"input": {"patches": c["patches"], "src": c["src"]},
+                                         "reproduce": "f, _ := patch.Parse(..); a, _ := f.Apply(\"a.go\", src); f.Apply(\"b.go\", other); a is no longer what it was"})
 
 # --- argument forms (shared by C12 and C14) ----------------------------------
 ARGFORM_TREE = {"a.go": "f", "sub": {"b.go": "f", ".hid": {"f.go": "f"}}, "testdata": {"c.go": "f", "cases": {"g.go": "f"}},
@@ -1811,6 +1816,19 @@ def c16(ctx):
         return out
     scen += corpus_scenarios("C16")
     run_scenarios(ctx, scen, [[], ["print"], ["diff"]], {"write", "stdout", "exit", "report", "unmatched"}, post)
+    # the library: a program that computes the results for several files with one parsed patch and writes them afterwards must
+    # not end up with a file made of two results (no error would tell it)
+    lib_cases = [{"id": f"lib{i}", "patches": c["patches"], "src": c["src"]} for i, c in enumerate(good) if len(c.get("patches", [])) == 1]
+    lib_cases += [{"id": "lib-noimp", "patches": ["@@\nvar x expression\n@@\n-foo(x)\n+barbaz(x, x)\n"], "src": "package a\n\nfunc f() {\n\tfoo(1)\n\tfoo(2)\n}\n"},
+                  {"id": "lib-imp", "patches": ["@@\nvar x expression\n@@\n-foo(x)\n+barbaz(x, x)\n"], "src": "package a\n\nimport \"fmt\"\n\nfunc f() {\n\tfmt.Println(foo(1))\n}\n"}]
+    for o in run_api(ctx, lib_cases, rep=1):
+        ctx.evaluations += 1
+        ctx.count("library_results_held")
+        ctx.nontrivial.add("held:" + o["id"])
+        if o.get("held_same") is False:
+            c = [x for x in lib_cases if x["id"] == o["id"]][0]
+            ctx.violation("library: the bytes returned by one Apply call changed while the same parsed patch was applied to other sources; a caller "
+                          "that writes its results afterwards writes a mixture of two files, with no error", {"fault": "held-result", "input": c})
     # missing path / missing patch / patches-file naming a missing patch
     root = ctx.scratch("missing")
     cl.write_tree(root, {"a.go": "package a\n\nfunc f() { foo(1) }\n", "p.patch": "@@\n@@\n-foo(1)\n+bar(1)\n",
